@@ -28,7 +28,7 @@ def main():
         assert rc == 0, out
     for s in seeds:
         sd = os.path.join(VERIF, "seeded", s)
-        sh(f"git -C {WT} checkout -q --detach $(git -C /repo rev-parse HEAD) && git -C {WT} checkout -- . && git -C {WT} clean -fdq")
+        sh(f"git -C {WT} checkout -- . ; git -C {WT} clean -fdq ; git -C {WT} checkout -q --detach $(git -C /repo rev-parse HEAD)")
         rc, out = sh(f"git -C {WT} apply {sd}/patch.diff")
         if rc != 0:
             matrix[s] = {"error": "patch does not apply: " + out[-200:]}
